@@ -7,6 +7,7 @@ CONSTANTS n1 = n1
  Byz = {n4}
  NV = 1
  Cands = {"A", "B"}
+ DecCands = {"A", "B"}
  ThrMinus = 0
  ExVerify = FALSE
  AggVerify = FALSE
@@ -14,6 +15,7 @@ CONSTANTS n1 = n1
  MaxBad = 0
  MaxCrash = 1
  ByzClaims = "any"
+ HonestBatches = "any"
 INVARIANTS GroupValid
 VIEW View
 SYMMETRY Sym
